@@ -410,8 +410,18 @@ def check (ps : PState) (evLine : String) (obs : List String) (fault : Option St
         let mut expectQ : List Nat := []
         for u in idRules "curr" do
           if c.urrs.contains u then c := { c with tainted := true } else c := { c with urrs := c.urrs ++ [u] }
+        -- Create PDR for a LIVE PDR id: by the property the PDR's current list is the new one, and a URR only the old list
+        -- named has lost its last referring PDR.  The code overwrites the set without releasing the old references
+        -- (known finding recreatePdrLive); after that the session's counts are off and it is left out.
+        let mut recreated : List (Nat × List Nat) := []
+        let wasClean := !c.tainted
         for (i, us) in pdrRules "cpdr" do
-          if (c.pdrs.any (·.1 == i)) then c := { c with tainted := true } else c := { c with pdrs := c.pdrs ++ [(i, us)] }
+          match c.pdrs.find? (·.1 == i) with
+          | some (_, old) =>
+            c := { c with pdrs := c.pdrs.map fun p => if p.1 == i then (i, us) else p }
+            recreated := recreated ++ [(i, (old ++ us).eraseDups)]
+            c := { c with tainted := true }
+          | none => c := { c with pdrs := c.pdrs ++ [(i, us)] }
         for u in idRules "rurr" do
           c := { c with urrs := c.urrs.filter (· != u) }
         for i in idRules "rpdr" do
@@ -430,6 +440,20 @@ def check (ps : PState) (evLine : String) (obs : List String) (fault : Option St
               if !us.contains u && c.urrs.contains u && c.refs u == 0 then expectQ := expectQ ++ [u]
         -- faults injected into the data plane make "the PDR exists" itself uncertain: the predicate is evaluated on fault-free cases
         let anyErr := dps.any fun x => !x.2.2.2.2
+        -- whatever one makes of the request itself (the data plane refuses the duplicate), the implementation's own two
+        -- tables must agree afterwards: the count of a URR is the number of PDRs whose recorded list names it
+        if wasClean && !c0.tainted && ps.faultPct == 0 then
+          match d.live seid with
+          | none => pure ()
+          | some ds =>
+            for (i, us) in recreated do
+              for u in us do
+                match ds.urrs.find? (·.id == u) with
+                | none => pure ()
+                | some info =>
+                  let n := (ds.pdrs.filter fun p => p.2.contains u).length
+                  if info.ref != n then
+                    fs := fs ++ [s!"C12 session {hexN seid}: Create PDR re-used the live PDR id {i}; URR {u} is now recorded as referred to by {info.ref} PDR(s) while {n} PDR(s) name it — the references of the replaced list were not released sig=recreatePdrLive"]
         if !c.tainted && !c0.tainted && ps.faultPct == 0 && !anyErr then
           for u in expectQ.eraseDups do
             let nq := (dps.filter fun x => x.1 == seid && x.2.1 == "query" && x.2.2.1 == "urr" && x.2.2.2.1 == u).length
@@ -443,6 +467,17 @@ def check (ps : PState) (evLine : String) (obs : List String) (fault : Option St
               if mine.any fun r => r.trig / Gen.report.USAR_TRIG_TERMR % 2 == 0 then
                 fs := fs ++ [s!"C12 the final report of URR {u} (session {hexN seid}) is not marked as a termination report"]
         tbl := (seid, c) :: tbl.filter (·.1 != seid)
+    -- the bookkeeping itself: a URR counts as referenced by precisely the PDRs whose current URR list names it
+    if ps.faultPct == 0 && !isDup then
+      for (up, c) in tbl do
+        if !c.tainted then
+          match d.live up with
+          | none => pure ()
+          | some ds =>
+            for u in ds.urrs do
+              let n := (ds.pdrs.filter fun p => p.2.contains u.id).length
+              if u.ref != n then
+                fs := fs ++ [s!"C12 session {hexN up}: URR {u.id} is recorded as referred to by {u.ref} PDR(s); {n} PDR(s) name it in their current URR list"]
     return (tbl, fs)
   -- C10 (external): every usage report sent carries a report the data plane produced in this event for that session — URR id,
   -- trigger, start / end time, counters and duration as measured, the measurement IEs as the URR's method and MNOP select
